@@ -1,10 +1,189 @@
 import RgVerif.Model.Sx
+import RgVerif.Model.Strip
+import RgVerif.Model.NonMatching
+import RgVerif.Model.Literal
 namespace RgVerif.Driver.C11
-open RgVerif
+open RgVerif RgVerif.Rx
+
+/-! ### wire format of the HIR
+
+`(empty)` `(lit 6162)` `(cb 97-122 48-57)` `(cu 0-9 11-1114111)` `(look StartLF)`
+`(rep MIN MAX|- GREEDY sub)` `(cap IDX sub)` `(concat x …)` `(alt x …)` -/
+
+def lookNames : List (String × Look) :=
+  [("Start", .Start), ("End", .End), ("StartLF", .StartLF), ("EndLF", .EndLF),
+   ("StartCRLF", .StartCRLF), ("EndCRLF", .EndCRLF),
+   ("WordAscii", .WordAscii), ("WordAsciiNegate", .WordAsciiNegate),
+   ("WordUnicode", .WordUnicode), ("WordUnicodeNegate", .WordUnicodeNegate),
+   ("WordStartAscii", .WordStartAscii), ("WordEndAscii", .WordEndAscii),
+   ("WordStartUnicode", .WordStartUnicode), ("WordEndUnicode", .WordEndUnicode),
+   ("WordStartHalfAscii", .WordStartHalfAscii), ("WordEndHalfAscii", .WordEndHalfAscii),
+   ("WordStartHalfUnicode", .WordStartHalfUnicode), ("WordEndHalfUnicode", .WordEndHalfUnicode)]
+
+def parseLook (s : String) : Option Look := (lookNames.find? (·.1 == s)).map (·.2)
+def showLook (k : Look) : String := ((lookNames.find? (·.2 == k)).map (·.1)).getD "?"
+
+def parseRange (x : Sx) : Option Range := do
+  let s ← x.atom?
+  match s.splitOn "-" with
+  | [a, b] => pure ((← a.toNat?), (← b.toNat?))
+  | _ => none
+
+partial def parseHir : Sx → Option Hir
+  | .list [.atom "empty"] => some .empty
+  | .list [.atom "lit", b] => b.bytes?.map .lit
+  | .list (.atom "cb" :: rs) => (rs.mapM parseRange).map .classB
+  | .list (.atom "cu" :: rs) => (rs.mapM parseRange).map .classU
+  | .list [.atom "look", .atom k] => (parseLook k).map .look
+  | .list [.atom "rep", mn, mx, g, sub] => do
+    let mn ← mn.nat?
+    let mx ← match mx with
+      | .atom "-" => some none
+      | x => x.nat?.map some
+    let g ← g.bool?
+    let sub ← parseHir sub
+    pure (.rep mn mx g sub)
+  | .list [.atom "cap", i, sub] => do pure (.cap (← i.nat?) (← parseHir sub))
+  | .list (.atom "concat" :: xs) => (xs.mapM parseHir).map fun l => .concat (HirList.ofList l)
+  | .list (.atom "alt" :: xs) => (xs.mapM parseHir).map fun l => .alt (HirList.ofList l)
+  | _ => none
+
+def showRanges (rs : Ranges) : String :=
+  String.join (rs.map fun r => s!" {r.1}-{r.2}")
+
+mutual
+def showHir : Hir → String
+  | .empty => "(empty)"
+  | .lit bs => s!"(lit {toHex bs})"
+  | .classB rs => s!"(cb{showRanges rs})"
+  | .classU rs => s!"(cu{showRanges rs})"
+  | .look k => s!"(look {showLook k})"
+  | .rep mn mx g sub => s!"(rep {mn} {optNat mx} {if g then 1 else 0} {showHir sub})"
+  | .cap i sub => s!"(cap {i} {showHir sub})"
+  | .concat xs => s!"(concat{showHirL xs})"
+  | .alt xs => s!"(alt{showHirL xs})"
+def showHirL : HirList → String
+  | .nil => ""
+  | .cons h t => " " ++ showHir h ++ showHirL t
+end
+
+def parseLT : Sx → Option LineTerm
+  | .atom "crlf" => some .crlf
+  | .atom s => if s.startsWith "b" then (s.drop 1).toNat?.map .byte else none
+  | _ => none
+
+def showStrip : Except StripErr Hir → String
+  | .ok h => "ok " ++ showHir h
+  | .error (.notAllowed b) => s!"err notallowed {b}"
+  | .error (.invalidLineTerm b) => s!"err invalid {b}"
+
+def b01 (b : Bool) : String := if b then "1" else "0"
+
+/-- `(word lo-hi …)`: the non-ASCII part of the `\w` table used for Unicode word looks. -/
+def parseWord : Sx → Option Ranges
+  | .list (.atom "word" :: rs) => rs.mapM parseRange
+  | _ => none
+
+def handleBase (cmd : String) (args : List Sx) : Option String :=
+  match cmd, args with
+  | "c11.strip", [lt, h] =>
+    match parseLT lt, parseHir h with
+    | some lt, some h => some (showStrip (strip h lt))
+    | _, _ => some "bad-op"
+  | "c11.stripascii", [b, h] =>
+    match b.nat?, parseHir h with
+    | some b, some h => some (showStrip (stripAscii h b))
+    | _, _ => some "bad-op"
+  | "c11.nobyte", [b, h] =>
+    match b.nat?, parseHir h with
+    | some b, some h => some (b01 (noByte b h))
+    | _, _ => some "bad-op"
+  | "c11.needs", [b, h] =>
+    match b.nat?, parseHir h with
+    | some b, some h => some (b01 (needsByte b h))
+    | _, _ => some "bad-op"
+  | "c11.ban", [b, h] =>
+    match b.nat?, parseHir h with
+    | some b, some h => some (b01 (banned b h))
+    | _, _ => some "bad-op"
+  | "c11.nonmatching", [h] =>
+    match parseHir h with
+    | some h => some (toHex (nonMatching h))
+    | none => some "bad-op"
+  | "c11.echo", [h] =>
+    match parseHir h with
+    | some h => some (showHir h)
+    | none => some "bad-op"
+  | "c11.spans", [h, hay, w] =>
+    match parseHir h, hay.bytes?, parseWord w with
+    | some h, some hay, some w =>
+      let sp := allSpans (lookAt (isWordWith w)) h hay
+      some (" ".intercalate (sp.map fun p => s!"{p.1}:{p.2}") |> fun s => if s.isEmpty then "-" else s)
+    | _, _, _ => some "bad-op"
+  | "c11.ismatch", [h, hay, w] =>
+    match parseHir h, hay.bytes?, parseWord w with
+    | some h, some hay, some w => some (b01 (isMatch (lookAt (isWordWith w)) h hay))
+    | _, _, _ => some "bad-op"
+  | _, _ => none
+
+
+/-! ### literal sequences on the wire: `inf` or `(seq E6162 I63 E-)` -/
+
+def parseLit (x : Sx) : Option Lit := do
+  let s ← x.atom?
+  let cs := s.toList
+  match cs with
+  | 'E' :: rest => pure ⟨(← fromHex (String.ofList rest)), true⟩
+  | 'I' :: rest => pure ⟨(← fromHex (String.ofList rest)), false⟩
+  | _ => none
+
+def parseSeq : Sx → Option Seq
+  | .atom "inf" => some none
+  | .list (.atom "seq" :: ls) => (ls.mapM parseLit).map some
+  | _ => none
+
+def showSeq : Seq → String
+  | none => "inf"
+  | some ls => "(seq" ++ String.join (ls.map fun l => (if l.exact then " E" else " I") ++ toHex l.bytes) ++ ")"
+
+def handleLit (cmd : String) (args : List Sx) : Option String :=
+  match cmd, args with
+  | "c11.extract", [h] =>
+    match parseHir h with
+    | some h => let t := extract h; some (b01 t.pre ++ " " ++ showSeq t.seq)
+    | none => some "bad-op"
+  | "c11.finish", [sq] =>
+    match parseSeq sq with
+    | some sq => some (showSeq (finishUntagged sq))
+    | none => some "bad-op"
+  | "c11.covers", [a, b] =>
+    match parseSeq a, parseSeq b with
+    | some _, some none => some "1"
+    | some none, some (some _) => some "0"
+    | some (some L), some (some L') => some (b01 (covers L L'))
+    | _, _ => some "bad-op"
+  | "c11.gate", [lt, acc, h] =>
+    match lt.bool?, acc.bool?, parseHir h with
+    | some lt, some acc, some h => some (b01 (innerGate lt acc h))
+    | _, _, _ => some "bad-op"
+  | "c11.litsnobyte", [b, sq] =>
+    match b.nat?, parseSeq sq with
+    | some _, some none => some "1"
+    | some b, some (some L) => some (b01 (litsNoByte b L))
+    | _, _ => some "bad-op"
+  | "c11.fastfind", [sq, hay] =>
+    match parseSeq sq, hay.bytes? with
+    | some (some L), some hay => some (optNat (fastFind L hay))
+    | _, _ => some "bad-op"
+  | _, _ => none
 
 /-- Request handler of property C11: `cmd` is the first token of the line, `args` the rest. -/
 def handle (cmd : String) (args : List Sx) : String :=
-  match cmd, args with
-  | _, _ => "bad-op"
+  match handleBase cmd args with
+  | some r => r
+  | none =>
+    match handleLit cmd args with
+    | some r => r
+    | none => "bad-op"
 
 end RgVerif.Driver.C11
